@@ -1,0 +1,120 @@
+//go:build verif
+
+package kafka
+
+import "fmt"
+
+// Hooks for the /verif harness (build tag `verif` only), property C14, leader glue: one rebalance round of a
+// whole group run synchronously on the real joinGroup / assignTopicPartitions / makeMemberProtocolMetadata /
+// makeSyncGroupRequestV0 / syncGroup code, with a coordinator that only forwards bytes (no network, no goroutines).
+
+// VerifC14Member is one member of the simulated group: what it would be configured with.
+type VerifC14Member struct {
+	ID     string
+	Topics []string
+	Rack   string
+}
+
+// verifC14Coordinator forwards bytes the way a group coordinator does: the JoinGroup answer to the leader carries
+// every member's own metadata bytes, the SyncGroup answer to a member carries the bytes the leader listed under
+// that member's id (nothing if it listed none).
+type verifC14Coordinator struct {
+	verifMockCoordinator
+	join     joinGroupResponse
+	parts    []Partition
+	lastSync *syncGroupRequestV0
+	answer   []byte
+}
+
+func (c *verifC14Coordinator) joinGroup(joinGroupRequest) (joinGroupResponse, error) {
+	return c.join, nil
+}
+
+func (c *verifC14Coordinator) readPartitions(topics ...string) ([]Partition, error) {
+	want := map[string]bool{}
+	for _, t := range topics {
+		want[t] = true
+	}
+	var out []Partition
+	for _, p := range c.parts {
+		if want[p.Topic] {
+			out = append(out, p)
+		}
+	}
+	return out, nil
+}
+
+func (c *verifC14Coordinator) syncGroup(req syncGroupRequestV0) (syncGroupResponseV0, error) {
+	c.lastSync = &req
+	return syncGroupResponseV0{MemberAssignments: c.answer}, nil
+}
+
+func verifC14Balancer(protocol, rack string) (GroupBalancer, error) {
+	switch protocol {
+	case "range":
+		return RangeGroupBalancer{}, nil
+	case "roundrobin":
+		return RoundRobinGroupBalancer{}, nil
+	case "rack-affinity":
+		return RackAffinityGroupBalancer{Rack: rack}, nil
+	}
+	return nil, fmt.Errorf("unknown protocol %q", protocol)
+}
+
+// VerifC14LeaderRound runs one rebalance with members[0] as the leader.  Every member's JoinGroup metadata is
+// produced by its own makeJoinGroupRequest; the leader runs the real joinGroup (which decodes the metadata,
+// reads the partitions of the subscribed topics and applies the balancer) and syncGroup (which encodes one
+// assignment per member); every other member runs the real syncGroup on the bytes listed under its id.
+// Returns what each member receives and what the balancer computed on the leader.
+func VerifC14LeaderRound(protocol string, members []VerifC14Member, parts []Partition) (received map[string]map[string][]int32, computed GroupMemberAssignments, err error) {
+	if len(members) == 0 {
+		return nil, nil, fmt.Errorf("no members")
+	}
+	cgs := make([]*ConsumerGroup, len(members))
+	join := joinGroupResponse{GenerationID: 1, GroupProtocol: protocol, LeaderID: members[0].ID, MemberID: members[0].ID}
+	for i, m := range members {
+		b, err := verifC14Balancer(protocol, m.Rack)
+		if err != nil {
+			return nil, nil, err
+		}
+		cgs[i] = &ConsumerGroup{config: ConsumerGroupConfig{ID: "g", Topics: m.Topics, GroupBalancers: []GroupBalancer{b}}}
+		req, err := cgs[i].makeJoinGroupRequest("")
+		if err != nil || len(req.GroupProtocols) != 1 {
+			return nil, nil, fmt.Errorf("makeJoinGroupRequest: %v", err)
+		}
+		join.Members = append(join.Members, joinGroupResponseMember{MemberID: m.ID, MemberMetadata: req.GroupProtocols[0].ProtocolMetadata})
+	}
+	leader := &verifC14Coordinator{join: join, parts: parts}
+	memberID, generationID, computed, err := cgs[0].joinGroup(leader, "")
+	if err != nil {
+		return nil, nil, err
+	}
+	// the leader's SyncGroup: first only to capture the request, then again answered with its own bytes
+	if _, err := cgs[0].syncGroup(leader, memberID, generationID, computed); err != nil {
+		return nil, computed, err
+	}
+	req := leader.lastSync
+	listed := func(id string) []byte {
+		var b []byte
+		for _, ga := range req.GroupAssignments {
+			if ga.MemberID == id {
+				b = ga.MemberAssignments
+			}
+		}
+		return b
+	}
+	received = map[string]map[string][]int32{}
+	for i, m := range members {
+		conn := &verifC14Coordinator{answer: listed(m.ID)}
+		var assign GroupMemberAssignments
+		if i == 0 {
+			assign = computed
+		}
+		got, err := cgs[i].syncGroup(conn, m.ID, generationID, assign)
+		if err != nil {
+			return nil, computed, err
+		}
+		received[m.ID] = got
+	}
+	return received, computed, nil
+}
